@@ -6,7 +6,7 @@ from fractions import Fraction
 
 from core import Family, q, unq, run_model, run_impl, cmp_tree
 
-GEN_FILES = ["Argmax.v", "DiscreteNoShocks.v", "ChoiceAxes.v"]
+GEN_FILES = ["Argmax.v", "DiscreteNoShocks.v", "ChoiceAxes.v", "SolveDiscrete.v", "SimulateKernels.v"]
 TRUSTED = [
     "translator/py2coq_arr.py (regenerates Gen/Argmax.v from argmax.py: argmax, _move_axes_to_back, _flatten_last_n_axes, segment_argmax) and py2coq.py (Gen/DiscreteNoShocks.v)",
     "Base/ArrOps.v: meaning of transpose, reshape, jnp.max(axis=-1, keepdims, initial, where), ==, logical_and, jnp.argmax of a boolean array, jax.ops.segment_max, arange/broadcast_to, a[ids] (validated against JAX by families argmax_unit / segment_argmax_unit)",
